@@ -679,6 +679,60 @@ func main() {
 		}
 	}
 
+	// the wire frame of the data-path RPC: the fields Wire.Write sends and Wire.Read expects, in order,
+	// with their widths (from the types in rpc.Message) and the byte order
+	{
+		wire := parse(*repo, "rpc/wire.go")
+		typesf := parse(*repo, "rpc/types.go")
+		widths := map[string]int{"uint16": 2, "uint32": 4, "int32": 4, "uint64": 8, "int64": 8}
+		ftype := map[string]string{}
+		ast.Inspect(typesf.ast, func(x ast.Node) bool {
+			if ts, ok := x.(*ast.TypeSpec); ok && ts.Name.Name == "Message" {
+				if st, ok := ts.Type.(*ast.StructType); ok {
+					for _, fl := range st.Fields.List {
+						for _, n := range fl.Names {
+							ftype[n.Name] = src(fl.Type)
+						}
+					}
+				}
+			}
+			return true
+		})
+		layout := func(fn string, call string) string {
+			f := wire.fn("Wire", fn)
+			var fields []string
+			ast.Inspect(f, func(x ast.Node) bool {
+				c, ok := x.(*ast.CallExpr)
+				if !ok || src(c.Fun) != call || len(c.Args) != 3 {
+					return true
+				}
+				if src(c.Args[1]) != "binary.LittleEndian" {
+					fail("Wire.%s: byte order %s", fn, src(c.Args[1]))
+				}
+				a := strings.TrimPrefix(src(c.Args[2]), "&")
+				switch {
+				case strings.HasPrefix(a, "msg."):
+					n := strings.TrimPrefix(a, "msg.")
+					w, ok := widths[ftype[n]]
+					if !ok {
+						fail("Wire.%s: field %s has type %q", fn, n, ftype[n])
+					}
+					fields = append(fields, fmt.Sprintf("(%s, %d)", leanStr(n), w))
+				case a == "uint32(len(msg.Data))" || a == "length":
+					fields = append(fields, "(\"len\", 4)")
+				default:
+					fail("Wire.%s: unexpected operand %s", fn, a)
+				}
+				return true
+			})
+			return "[" + strings.Join(fields, ", ") + "]"
+		}
+		addFn("wireWrite", "", "List (String × Nat)", layout("Write", "binary.Write"), "rpc/wire.go Wire.Write")
+		addFn("wireRead", "", "List (String × Nat)", layout("Read", "binary.Read"), "rpc/wire.go Wire.Read")
+		rd := wire.fn("Wire", "Read")
+		addStr("wireMagicCheck", src(oneIf("Wire.Read", rd, "msg.MagicVersion != MagicVersion")))
+	}
+
 	// ---- emit ---------------------------------------------------------------------------
 	var b strings.Builder
 	b.WriteString("/- GENERATED by /verif/extract from /repo's working tree. Do not edit. -/\nnamespace Jiva.Gen\n\n")
